@@ -96,7 +96,7 @@ for p in sorted(glob.glob(os.path.join(V, "evidence", "C*.json"))):
 
 out.append("""### 7.4 Independent seeded changes (sub-agents given only the property text and a scratch worktree)
 
-Seven rounds, one change per property and round; the second- and third-round agents were additionally told the one-line
+Eight rounds, one change per property and round; the second- and third-round agents were additionally told the one-line
 descriptions of the earlier changes for their property and asked for a different site and mechanism. Each change was confirmed by
 `tools/verify_seed.sh` (demo passes on HEAD, patch builds, suite 25/25, demo fails with the patch) and run against the checks with
 `tools/run_seed.sh` (apply to /repo, check, `git checkout`); `tools/all_seeds.sh` re-runs all of them against the current checks.
@@ -184,8 +184,19 @@ pointer), c06g (C06.R3i: when the growth an insert asks for fails, the insert re
 no path that skips the store on a floating-point equality test - +0.0 / -0.0), c11g (C11.R8: the public string functions hand the
 caller's length on unchanged), c20g (C20.R7: the result of open() is tested as negative / -1, never "> 0").
 
-Across the seven rounds (140 changes): 81 were caught by the checks as they stood when the change arrived (25 of 40, then 11, 10, 12,
-9, 14 of 20), 56 after a rule was added or shared, 2 are recorded as not caught, 1 was neutralised by a fix. The miss rate per round
+Eighth round (20 changes): caught as submitted 12 (c01h, c04h, c05h, c06h, c08h, c11h, c15h, c16h, c17h, c18h, c19h, c20h). Missed,
+and the rule each caused: c02h (C02.R7: the indentation helper evaluated for levels 0..70 - exactly `level` tabs or 2 x `level`
+blanks, and no append longer than the constant it reads from), c07h (C07.R9: the node-level array operations call the list routine
+exactly once with the caller's arguments), c09h (C09.R8: two double nodes are equal exactly when IEEE-equal, evaluated with
+comparison predicates interpreted on {1, 2, +0, -0, inf, NaN}), c12h (C12.R11: an array index resolves exactly when it is below the
+length, on arrays of 0..2 elements), c13h (C13.R8: the operation handlers work on the caller's root slot, or the local copy is
+written back before every return), c14h (C18.R3, the inventory of process-wide state, is now also run under C14: a separator
+cached in a static is such a state). **Not caught, recorded as such**: c03h - a one-shot comparison of the whole `Infinity` literal
+that needs eight bytes in one chunk (same family as c04f); c10h - `json_object_get_double` on a string node treats every ERANGE
+from `strtod` as overflow, so subnormal texts read as 0: which texts `strtod` flags is value-level.
+
+Across the eight rounds (160 changes): 93 were caught by the checks as they stood when the change arrived (25 of 40, then 11, 10, 12,
+9, 14, 12 of 20), 62 after a rule was added or shared, 4 are recorded as not caught, 1 was neutralised by a fix. The miss rate per round
 stayed between a third and a half until the last round (the agents are told the earlier changes and move elsewhere), which is the honest measure of how much of each
 property a rule set of this kind covers. Every added rule was then run against all stored refactorings.
 
@@ -234,7 +245,7 @@ A third suite, **B3-c04 .. B3-c19** (ten refactorings), was commissioned after t
 functions the newest rules read (the text -> integer helpers, the token -> member-name code of pointer and patch, the print buffer,
 the hash table's insert / lookup / delete / resize, the string set operation, the deep-copy routines, every function that releases
 a field or a global, the number state of the tokener, the member-name ownership of the tokener). What it found is listed with the
-false alarms of 7.2. `tools/par_regress.py` runs the whole regression - unchanged tree, the 56 refactorings x 20 checks, the 140
+false alarms of 7.2. `tools/par_regress.py` runs the whole regression - unchanged tree, the 62 refactorings x 20 checks, the 160
 seeded changes, the ~260 developer mutants - in parallel scratch worktrees with private analysis caches (about 40 minutes on 16
 cores), never touching /repo or /verif/evidence.
 
@@ -242,6 +253,9 @@ A fourth suite, **B4-c03 .. B4-c17** (six refactorings aimed at the code the fif
 structural C07.R7 (qsort called with `arr->array, arr->length` literally; now UNDECIDED in favour of the evaluation rule C07.R8)
 and a `zeroinitializer` element inside a constant table that the evaluator could not read (the traversal's decision table then
 saw unknown values).
+
+A fifth suite, **B5-c05 .. B5-c20** (six refactorings aimed at the code the sixth- and seventh-round rules read), found one more:
+the dangling-field rule did not see that `old = t->table; t->table = fresh; free(old);` overwrites the field *before* the release.
 
 What remains after these corrections (and is accepted): a refactoring that removes a function a rule is anchored in by name ends
 as analysis-broken (exit 2) for that one check, never as a violation; exit 2 asks for the anchor table to be re-confirmed by a
@@ -265,10 +279,11 @@ on B2-c08 and B2-c13, was restated as an evaluation rule that has no named ancho
 * Internal functions absent from `tools/known_internal.json` are inlined before analysis; a new *external* helper is not, and
   rules that meet it answer UNDECIDED or analysis-broken, not a violation.
 * Chunk lengths: the tokener is evaluated on chunks of 1, 2 and 4 bytes from every configuration. A shortcut that only applies to
-  longer chunks and starts in the middle of one (seed S-c04f) is outside that family; so is anything that depends on how much input
+  longer chunks (seeds S-c04f, S-c03h) is outside that family; so is anything that depends on how much input
   *remains* rather than on the bytes seen.
 * Bit-level arithmetic through reinterpreting pointer casts (the string hash reading one buffer as uint32 / uint16 / uint8, seed
   S-c06f) is not modelled; what is decided about the hash table is relative to "the hash is a function of the key's bytes".
+* Which decimal texts libc's `strtod` reports as out of range (seed S-c10h: gradual underflow) is value-level.
 * UNDECIDED obligations are printed and never count as proven: C10.R2 has one (unsigned-compare guarded add in `json_object_int_inc`).
 
 """)
